@@ -46,6 +46,7 @@ type checkCtx struct {
 	Cov   map[string]int
 	Viol  []Violation
 	baseCfg simrt.Config // configuration to recompute the base run with (replay)
+	twin    *RunResult   // synchronous twin of an asynchronous scenario
 }
 
 // base returns the run of the same scenario with every injected cancellation
@@ -68,9 +69,15 @@ func baseOf(sc *Scenario) *Scenario {
 	for ci := range b.Clients {
 		for oi := range b.Clients[ci].Ops {
 			op := &b.Clients[ci].Ops[oi]
+			if op.ProbeStep != 0 && op.CancelSrc == SrcNone {
+				op.ProbeStep = never
+			}
 			switch op.CancelSrc {
 			case SrcCtxCancel, SrcResultCancel:
 				op.CancelStep = never
+				if op.ProbeStep != 0 {
+					op.ProbeStep = never
+				}
 			case SrcCtxDeadline:
 				op.CtxD = 1000000 * time.Hour
 			case SrcTimeout:
